@@ -26,6 +26,7 @@ from script_gen import ScriptBuilder  # noqa: E402
 KINDS = ["M", "M", "M", "M", "C", "C", "C", "U", "V", "R", "I"]
 KF_VARS = "C10-variables-count"
 KF_EPS = "C10-abs-epsilon"
+TOL = "tolerance"      # values exactly one unit in the last place apart: the documented tolerance, no claim is made
 FULL_GROUP_MUTANTS = 6
 
 
@@ -131,6 +132,27 @@ def epsilon_class(a, b):
     return any(x != y and abs(eg.dval(x) - eg.dval(y)) <= eg.EPS for x in da for y in db)
 
 
+def oneulp_class(a, b):
+    """some exponent/multiplier of a and one of b are exactly one unit in the last place apart"""
+    da, db = set(eg.doubles_of(a)), set(eg.doubles_of(b))
+    return any(x != y and (eg.dval(x) < 0) == (eg.dval(y) < 0) and eg.ulps(eg.dval(x), eg.dval(y)) == 1 for x in da for y in db)
+
+
+def ulp_step(desc):
+    """for a mutation of an exponent / multiplier: (class, k) — class 'abs' (|old-new| <= DBL_EPSILON: known finding),
+    'k1' (one ulp: tolerance), 'k2'..'k4', 'far'; None for other mutations"""
+    if "@" not in desc or ";" in desc:
+        return None
+    old, new = desc.split("@", 1)[1].split(">")
+    x, y = (eg.dval(tuple(int(v) for v in t.split("^"))) for t in (old, new))
+    if abs(x - y) <= eg.EPS:
+        return "abs"
+    if (x < 0) != (y < 0):
+        return "far"
+    k = eg.ulps(x, y)
+    return "k%d" % k if k <= 4 else "far"
+
+
 # --------------------------------------------------------------------------- evaluation of one case
 
 def field(line, key):
@@ -161,8 +183,8 @@ def eval_case(case, il, ml, out):
         if k >= len(hashes) or hashes[k] != eg.fnv1a(eg.ser(t)):
             problem("the objects built through the API are not the intended tree (root %d, read back through getters)" % k, [k])
             return
-    now, pinned, vc, ideal = (field(ml, k) for k in ("now", "pinned", "vc", "ideal"))
-    if None in (now, pinned, vc, ideal) or len(now) != len(queries):
+    now, pinned, vc, vcu, ideal = (field(ml, k) for k in ("now", "pinned", "vc", "vcu", "ideal"))
+    if None in (now, pinned, vc, vcu, ideal) or len(now) != len(queries):
         problem("model did not answer: %s" % ml[:200], [])
         return
     e = {}
@@ -180,22 +202,30 @@ def eval_case(case, il, ml, out):
             corr[q] = bits[n] == pinned[n]
             continue
         if bits[n] != ideal[n]:
-            if now[n] != vc[n] and varcount_class(a, b):
-                deviant[q] = KF_VARS
-            elif vc[n] != ideal[n] and epsilon_class(a, b):
-                deviant[q] = KF_EPS
+            # the chain  code as it is -> + variable count test -> - absolute epsilon -> exact comparison of doubles
+            steps = []
+            if now[n] != vc[n]:
+                steps.append((KF_VARS, varcount_class(a, b)))
+            if vc[n] != vcu[n]:
+                steps.append((KF_EPS, epsilon_class(a, b)))
+            if vcu[n] != ideal[n]:
+                steps.append((TOL, oneulp_class(a, b)))
+            if steps and all(ok for _, ok in steps):
+                deviant[q] = [c for c, _ in steps]
             else:
                 problem("equals(%s, %s) = %s differs from the specification outside every known-finding class" % (q[0], q[1], bits[n]),
-                        [q[0], q[1]], {"query": q, "impl": bits[n], "now": now[n], "vc": vc[n], "ideal": ideal[n]})
+                        [q[0], q[1]], {"query": q, "impl": bits[n], "now": now[n], "vc": vc[n], "vcu": vcu[n], "ideal": ideal[n]})
         out["pairs_true" if e[q] else "pairs_false"] += 1
     if len(e) != len(queries):
         return
 
     def fails(what, qs, involved):
         """an instance of the property fails on the implementation's answers"""
-        ids = sorted(set(deviant[q] for q in qs if q in deviant))
-        if ids:
-            for i in ids:
+        ids = sorted(set(c for q in qs if q in deviant for c in deviant[q]))
+        if ids == [TOL]:
+            out["tolerance"] += 1       # only the one-ulp tolerance is involved: outside the property's claims
+        elif ids:
+            for i in [c for c in ids if c != TOL]:
                 out["kf"].setdefault(i, {"what": what, "seed": case["seed"], "involved": involved,
                                          "descs": [roots[k][1] for k in involved]})
                 out["kf_count"][i] = out["kf_count"].get(i, 0) + 1
@@ -252,9 +282,19 @@ def eval_case(case, il, ml, out):
     for k in range(3, len(roots)):
         if roots[k][0] == "mut":
             out["mut_kinds"][mutkind(roots[k][1])] = out["mut_kinds"].get(mutkind(roots[k][1]), 0) + 1
+            us = ulp_step(roots[k][1])
+            if us is not None:
+                out["ulp_steps"][us] = out["ulp_steps"].get(us, 0) + 1
             for q in ((0, k), (k, 0)):
                 if e[q]:
-                    fails("detect: mutation '%s' is not seen by equals%s" % (roots[k][1], q), [q], [0, k])
+                    if us in ("k2", "k3", "k4", "far") and not (q in deviant and TOL in deviant[q]):
+                        # (when the operands also hold values exactly one ulp apart the tolerance can chain:
+                        #  {1-ulp, 1} matches {1, 1+ulp} pairwise — outside the property's claims, counted as tolerance)
+                        problem("ORACLE ulp: an exponent/multiplier changed by %s (more than one unit in the last place, more than "
+                                "DBL_EPSILON) compares equal: '%s' equals%s" % (us, roots[k][1], q), [0, k],
+                                {"class": "oracle-ulp", "query": q})
+                    else:
+                        fails("detect: mutation '%s' is not seen by equals%s" % (roots[k][1], q), [q], [0, k])
     # coverage accounting
     nt = set()
     mc = [eg.max_children(t) >= 2 for t in trees]
@@ -269,7 +309,7 @@ def eval_case(case, il, ml, out):
 
 def mutkind(d):
     import re
-    return re.sub(r"\[\d+\]", "[]", d)
+    return re.sub(r"\[\d+\]", "[]", d.split("@")[0])
 
 
 # --------------------------------------------------------------------------- one shard (runs in a worker process)
@@ -286,7 +326,7 @@ def run_shard(args):
     il = p1.communicate()[0].decode("utf-8", "replace").split("\n")
     ml = p2.communicate()[0].decode("utf-8", "replace").split("\n")
     out = {"bad": [], "kf": {}, "kf_count": {}, "pairs_true": 0, "pairs_false": 0, "triples": 0, "nontrivial": 0,
-           "sizes": [0] * 10, "kinds": {}, "mut_kinds": {}, "subpairs": {}, "evaluations": 0, "cases": len(cases), "roothashes": [],
+           "sizes": [0] * 10, "kinds": {}, "mut_kinds": {}, "subpairs": {}, "ulp_steps": {}, "tolerance": 0, "evaluations": 0, "cases": len(cases), "roothashes": [],
            "samples": []}
     for k, c in enumerate(cases):
         a = il[k] if k < len(il) else "<missing>"
@@ -419,7 +459,8 @@ def run(ctx):
     with multiprocessing.Pool(vf.NCPU) as pool:
         outs = pool.map(run_shard, args, chunksize=1)
     tot = {"pairs_true": 0, "pairs_false": 0, "triples": 0, "nontrivial": 0, "evaluations": 0, "cases": 0}
-    sizes, kinds, mk, kfc, subp = [0] * 10, {}, {}, {}, {}
+    sizes, kinds, mk, kfc, subp, ulpst = [0] * 10, {}, {}, {}, {}, {}
+    ntol = 0
     seen_roots = set()
     nbad = 0
     allbad = []
@@ -428,9 +469,10 @@ def run(ctx):
             tot[k] += o[k]
         for i in range(10):
             sizes[i] += o["sizes"][i]
-        for d, s in ((kinds, o["kinds"]), (mk, o["mut_kinds"]), (kfc, o["kf_count"]), (subp, o["subpairs"])):
+        for d, s in ((kinds, o["kinds"]), (mk, o["mut_kinds"]), (kfc, o["kf_count"]), (subp, o["subpairs"]), (ulpst, o["ulp_steps"])):
             for k, v in s.items():
                 d[k] = d.get(k, 0) + v
+        ntol += o["tolerance"]
         seen_roots.update(o["roothashes"])
         for fid, ex in o["kf"].items():
             text = "%s [seed %s; %s]" % (ex["what"], ex["seed"], "; ".join(x for x in ex["descs"] if x))
@@ -481,6 +523,8 @@ def run(ctx):
         "pairs_equal": tot["pairs_true"], "pairs_unequal": tot["pairs_false"],
         "transitivity_triples_with_both_premises_true": tot["triples"],
         "parented_sub_object_vs_free_standing_copy_by_kind": subp,
+        "exponent_multiplier_mutations_by_ulp_step": dict(sorted(ulpst.items())),
+        "oracle_instances_inside_the_one_ulp_tolerance_no_claim": ntol,
         "oracle_failures_attributed_to_known_findings": kfc}
     ctx.cov["traces_validated_against_impl"] = tot["evaluations"]
     ctx.log("cases=%d evaluations=%d equal=%d unequal=%d triples=%d kf=%s" %
